@@ -13,7 +13,7 @@ ID = "C14"
 COQ_IMPORT = "Corr.CNodes"
 COQ_CASE_TYPE = "g_case"
 COQ_CHECK = "g_check"
-THEOREMS = []
+THEOREMS = ["c14_conv1d_annotation_survives", "c14_conv2d_annotation_survives", "c14_inference_changes_only_annotations"]
 PROOF_FILES = ["Proofs/SerialProofs.v", "Proofs/InferProofs.v"]
 RULE = ("the C08 generator of consistent graphs (with and without erased annotations); histories over "
         "{infer_types, write+read, to_dict+from_dict} of length <= 4: all 3^k interleavings for k <= 3 on a sample of "
